@@ -53,6 +53,9 @@ pub const WRITE_TRACE_ENV: &str = "WILD_WRITE_TRACE";
 /// inconsistency.
 pub(crate) const WRITE_VERIFY_ALLOCATIONS_ENV: &str = "WILD_VERIFY_ALLOCATIONS";
 
+/// How deeply response files (`@file`) may include other response files.
+const MAX_RESPONSE_FILE_DEPTH: u32 = 100;
+
 #[derive(derive_more::Debug)]
 pub struct CommonArgs {
     pub(crate) unrecognized_options: Vec<String>,
@@ -669,15 +672,39 @@ impl<T: platform::Args> ArgumentParser<T> {
         arg: &str,
         input: &mut I,
     ) -> Result<()> {
+        self.handle_argument_nested(args, modifier_stack, arg, input, 0)
+    }
+
+    /// `response_file_depth` is the number of response files that we're currently inside of.
+    fn handle_argument_nested<S: AsRef<str>, I: Iterator<Item = S>>(
+        &self,
+        args: &mut T,
+        modifier_stack: &mut Vec<Modifiers>,
+        arg: &str,
+        input: &mut I,
+        response_file_depth: u32,
+    ) -> Result<()> {
         let common = args.common_mut();
 
         // TODO @lapla-cogito standardize the interface. @file doesn't use a leading hyphen.
         // Handle `@file`option (recursively) - merging in the options contained in the file
         if let Some(path) = arg.strip_prefix('@') {
+            // A response file that directly or indirectly includes itself would otherwise recurse
+            // until we overflow the stack.
+            ensure!(
+                response_file_depth < MAX_RESPONSE_FILE_DEPTH,
+                "Response files nested too deeply at `{arg}`"
+            );
             let file_args = read_args_from_file(Path::new(path))?;
             let mut file_arg_iter = file_args.iter();
             while let Some(file_arg) = file_arg_iter.next() {
-                self.handle_argument(args, modifier_stack, file_arg, &mut file_arg_iter)?;
+                self.handle_argument_nested(
+                    args,
+                    modifier_stack,
+                    file_arg,
+                    &mut file_arg_iter,
+                    response_file_depth + 1,
+                )?;
             }
             return Ok(());
         }
